@@ -68,6 +68,21 @@ CLAIMED = {
             "and None from 2^32 on, finalize = TooLargeInput iff n > 4224281216 and never panics; code 169 at exactly MAX.",
             "states near the limits are injected through the hook (thorough: real multi-GiB streams); a > 4 GiB single slice is "
             "exercised by the HUGE-SLICE case"),
+    "C12": ("Theorems over the read loop for EVERY sequence of read results (a reader = what its successive reads return: "
+            "deliveries of any sizes 1..buffer, transient interruptions, hard errors, over-claims; the buffer size is re-read "
+            "from the source): with no hard error, hash_stream = hash_buf of the concatenation of the delivered bytes (same "
+            "hash or same generator error) whatever the partial-read sizes and however many interruptions -- so streams of any "
+            "length, beyond the 1 MiB buffer included; the first hard error is returned as that IOError; hash_file = the same "
+            "loop, an unopenable path = IOError; never UB, Panic only when the reader over-claims.  The pinned tree violated "
+            "the property (Interrupted was returned as an error): C12_refuted_before_fix is the witness theorem on the "
+            "pre-fix loop; the defect was reported by this check with the failing script and repaired by fix: commit bca783b.",
+            "PARTIAL: std::io::Read / std::fs::File / the OS are outside the model (files and a missing path are exercised by "
+            "the FILE suite on the implementation only); hand model of generate_easy_std.rs tied by the STREAM suites"),
+    "C13": ("Theorems for every pair of strings, every variant and configuration: if both parse, compare_with = the reference "
+            "distance of the two parsed hashes; if the left does not parse the error is (Left, the parser's error) whatever "
+            "the right is; otherwise (Right, the parser's error); replacing either accepted string by T1 + its upper-cased "
+            "digits changes nothing, and any two accepted spellings with the same digits compare alike; never panics.",
+            "mostly glue over C02/C04/C05's models; hand model of compare_easy.rs tied by the EASY suite (every pair of error kinds)"),
     "C14": ("Theorems for every hash, variant, form (bytes, hex, hex+prefix), configuration and every buffer (any length, any prior "
             "content): BufferIsTooSmall with an untouched buffer iff shorter than the advertised size, otherwise Ok(size), the "
             "representation in the first size bytes and every later byte unchanged; no slice/assert inside the serializers can fire "
